@@ -573,3 +573,115 @@ Definition mon_C02 (c : syscase) : N :=
   | Some cfg => c02_from c cfg [] [] 0 (sc_ops c) (sc_obs c)
   | None => 0
   end.
+
+(* ================================================================================== *)
+(* What an authorization code stands for: the parameters of the request that obtained it - the
+   request's own; for a request that redeems a request_uri the pushed ones (completed by the outer
+   ones outside FAPI); for a code delivered by a callback those of the request that started the
+   interaction - and the client it was issued to. *)
+Record flowst := mkFlow {
+  f_parp : list (id * (id * params));    (* request_uri -> (pushing client, pushed parameters) *)
+  f_cbp : list (id * (id * params));     (* callback id -> (client, effective parameters) *)
+  f_codes : list (id * (id * params))    (* code -> (client, effective parameters) *)
+}.
+Definition flow0 : flowst := mkFlow [] [] [].
+Definition eff_params (cfg : config) (f : flowst) (r : areq) : option params :=
+  if andb (cf_par_enabled cfg) (negb (is_nil (p_request_uri (ar_params r)))) then
+    match lookup (p_request_uri (ar_params r)) (f_parp f) with
+    | Some (_, pp) => Some (if is_fapi (cf_profile cfg) then pp else merge_params pp (ar_params r))
+    | None => None end
+  else Some (ar_params r).
+Definition flow_learn (cfg : config) (f : flowst) (o : op) (x : obs) : flowst :=
+  match o, x with
+  | OpPar r, Out (OPar u) => mkFlow ((u, (cr_id (pr_cred r), pr_params r)) :: f_parp f) (f_cbp f) (f_codes f)
+  | OpAuthorize r, Out (OPage cb) =>
+      match eff_params cfg f r with
+      | Some e => mkFlow (f_parp f) ((cb, (ar_client r, e)) :: f_cbp f) (f_codes f)
+      | None => f end
+  | OpAuthorize r, Out (ONav _ _ nv) =>
+      if is_nil (n_code nv) then f else
+      match eff_params cfg f r with
+      | Some e => mkFlow (f_parp f) (f_cbp f) ((n_code nv, (ar_client r, e)) :: f_codes f)
+      | None => f end
+  | OpCallback r, Out (ONav _ _ nv) =>
+      if is_nil (n_code nv) then f else
+      match lookup (cb_id r) (f_cbp f) with
+      | Some ce => mkFlow (f_parp f) (f_cbp f) ((n_code nv, ce) :: f_codes f)
+      | None => f end
+  | _, _ => f
+  end.
+Section FlowDriver.
+  Variable clause : config -> flowst -> op -> obs -> N.   (* sees the flow state BEFORE the operation *)
+  Fixpoint drive_flow (cfg : config) (f : flowst) (k : nat) (ops : list op) (xs : list obs) : N :=
+    match ops, xs with
+    | o :: ops', x :: xs' =>
+        match clause cfg f o x with
+        | 0 => drive_flow cfg (flow_learn cfg f o x) (S k) ops' xs'
+        | c => viol c k
+        end
+    | _, _ => 0
+    end.
+End FlowDriver.
+Definition run_flow_monitor clause (c : syscase) : N :=
+  with_cfg (fun cfg ops xs => drive_flow clause cfg flow0 0 ops xs) c.
+
+(* PKCE.  The method a recorded challenge is verified under: the one the authorization request
+   named, else the server's default (Go: PKCEDefaultChallengeMethod). *)
+Definition pkce_effective_method (cfg : config) (p : params) : string :=
+  if is_empty (p_method p) then cf_pkce_default cfg else p_method p.
+(* the verifier presented with the code matches the recorded challenge under the effective method *)
+Definition pkce_matches (cfg : config) (p : params) (v : pk) : bool :=
+  andb (negb (pk_is_empty v)) (andb (pk_len_ok v) (is_pkce_valid v (p_challenge p) (pkce_effective_method cfg p))).
+
+(* C03, clauses 3 and 5: a code yields tokens only with the redirect_uri of its authorization request
+   and, when PKCE is enabled and a challenge was recorded, with the matching verifier (whether the
+   request named the method or left it to the server's default) *)
+Definition clause_C03b (cfg : config) (f : flowst) (o : op) (x : obs) : N :=
+  match o, x with
+  | OpToken GAuthorizationCode r, Out (OTokens _) =>
+      match lookup (t_code r) (f_codes f) with
+      | Some (_, p) =>
+          if negb (seqb (p_redirect p) (t_redirect r)) then 3 else
+          if andb (cf_pkce_enabled cfg) (andb (negb (pk_is_empty (p_challenge p))) (negb (pkce_matches cfg p (t_verifier r))))
+          then 5 else 0
+      | None => 0 end
+  | _, _ => 0
+  end.
+Definition mon_C03x (c : syscase) : N :=
+  match mon_C03 c with 0 => run_flow_monitor clause_C03b c | k => k end.
+
+(* C04, clause 2: a grant type or response type is served only to a client registered for it - a code
+   only to a client registered for authorization_code, an access token or ID token from the
+   authorization endpoint only to one registered for implicit, any artifact only for a response type
+   the client registered; tokens from the token endpoint only for a grant type of the client *)
+Definition nav_grants_ok (c : client) (nv : nav) : bool :=
+  andb (orb (is_nil (n_code nv)) (has_grant GAuthorizationCode (c_grants c)))
+       (orb (andb (is_nil (n_at nv)) (negb (n_idt nv))) (has_grant GImplicit (c_grants c))).
+Definition nav_artifact (nv : nav) : bool := orb (negb (is_nil (n_code nv))) (orb (negb (is_nil (n_at nv))) (n_idt nv)).
+Definition clause_C04b (cs : syscase) (cfg : config) (f : flowst) (o : op) (x : obs) : N :=
+  match o, x with
+  | OpAuthorize r, Out (ONav _ _ nv) =>
+      if negb (nav_artifact nv) then 0 else
+      match client_of cs (ar_client r) with
+      | Some c =>
+          if negb (nav_grants_ok c nv) then 2 else
+          match eff_params cfg f r with
+          | Some p => if mem (p_resp_type p) (c_resp_types c) then 0 else 2
+          | None => 0 end
+      | None => 2 end
+  | OpCallback r, Out (ONav _ _ nv) =>
+      if negb (nav_artifact nv) then 0 else
+      match lookup (cb_id r) (f_cbp f) with
+      | Some (cl, p) =>
+          match client_of cs cl with
+          | Some c => if andb (nav_grants_ok c nv) (mem (p_resp_type p) (c_resp_types c)) then 0 else 2
+          | None => 2 end
+      | None => 0 end
+  | OpToken g r, Out (OTokens _) =>
+      match client_of cs (cr_id (t_cred r)) with
+      | Some c => if andb (has_grant g (c_grants c)) (has_grant g (cf_grants cfg)) then 0 else 2
+      | None => 2 end
+  | _, _ => 0
+  end.
+Definition mon_C04x (c : syscase) : N :=
+  match mon_C04 c with 0 => run_flow_monitor (clause_C04b c) c | k => k end.
